@@ -243,18 +243,28 @@ func checkC17(c *Ctx) {
 		// call site
 		rr := p.Func("imapclient", "Client", "readResponse")
 		if rr != nil {
-			gf := gateFlow(rr, facts{})
 			n := 0
-			allInstrs(rr, func(i ssa.Instruction) {
-				if call, ok := i.(*ssa.Call); ok && staticCallee(call) == up {
-					n++
-					fs, _ := gf.at(call)
-					c.check(fs.has("ok:(*Decoder).ExpectCRLF"), "C17.c", "readResponse→upgradeStartTLS", call.Pos(),
-						"the upgrade happens after the CRLF of the tagged OK was consumed", "the TLS upgrade starts before the response line is complete: the rest of the plaintext line is handed to TLS or parsed later")
+			inReader := map[*ssa.Function]bool{}
+			// readResponse and its private helpers (the hand-over extracted into
+			// a function of its own keeps the facts of its call site)
+			for _, g := range helperClosure(rr, 2) {
+				if g.Parent() != nil {
+					continue
 				}
-			})
+				inReader[g] = true
+				g := g
+				gf := gateFlow(g, facts{})
+				allInstrs(g, func(i ssa.Instruction) {
+					if call, ok := i.(*ssa.Call); ok && staticCallee(call) == up {
+						n++
+						fs, _ := gf.at(call)
+						c.check(fs.has("ok:(*Decoder).ExpectCRLF"), "C17.c", "readResponse→upgradeStartTLS", call.Pos(),
+							"the upgrade happens after the CRLF of the tagged OK was consumed", "the TLS upgrade starts before the response line is complete: the rest of the plaintext line is handed to TLS or parsed later")
+					}
+				})
+			}
 			for _, fn := range p.SrcFuncs("imapclient") {
-				if fn == rr {
+				if inReader[fn] {
 					continue
 				}
 				allInstrs(fn, func(i ssa.Instruction) {
@@ -439,6 +449,9 @@ func ruleNotAuthWrites(c *Ctx, rule string) {
 			fs, _ := gf.at(i)
 			key := fmt.Sprintf("%s:state=NotAuthenticated#%d", fnKey(fn), countKey(c, rule, fnKey(fn)+":state=NotAuthenticated#")+1)
 			okSite := fs.has("greeting-pending") || fnKey(fn) == "(*Client).completeCommand"
+			if cc := p.Func("imapclient", "Client", "completeCommand"); cc != nil && isHelperOf(fn, cc, 2) {
+				okSite = true // the completion effects extracted into a helper of completeCommand
+			}
 			c.check(okSite, rule, key, i.Pos(), "written while handling the greeting or on completion of a command",
 				"the client resets its state to NotAuthenticated outside the greeting/UNAUTHENTICATE handling: a PREAUTH greeting is forgotten and NewStartTLS no longer refuses it")
 		})
